@@ -241,7 +241,7 @@ Qed.
 Lemma sim_attach : forall s g c sk, Inv s -> sim s (Attach g c sk).
 Proof.
   intros s g c sk I. unfold sim, step, spec_step. cbn [erase r_rtg r_handles r_tlg r_held r_log].
-  rewrite (inv_att s I). destruct (find g 0 (handles s)) eqn:F; cbn [fst snd]; [split; auto|].
+  rewrite (inv_att s I). destruct (find g 0 (handles s)) eqn:F; cbn [fst snd]; [split; [reflexivity | eapply inv_same; eauto]|].
   split; [reflexivity|]. destruct I as [A B C H T R Z].
   split; [intros g' | intros g' t' | intros g' r' | | | | ]; norm; auto.
   - rewrite find_app. destruct (Nat.eqb g g') eqn:E; cbn [att].
@@ -381,13 +381,16 @@ Definition reach (s : st) := exists ops, s = fst (run init ops).
 Lemma reach_inv : forall s, reach s -> Inv s.
 Proof. intros s [ops ->]. apply (run_refines ops init inv_init). Qed.
 
-(* a panicking (or refusing) operation leaves everything as it was: nothing is poisoned, nothing half-installed *)
-Theorem panic_preserves : forall s o, (snd (step s o) = RPanic \/ exists e, snd (step s o) = RErr e) -> fst (step s o) = s.
+(* a panicking (or refusing) operation leaves every slot and every guard as it was: nothing is poisoned, nothing
+   half-installed; the only trace is that unwinding drops the sink a rejected attach was given *)
+Definition rejected (o : op) : list ev := match o with Attach _ _ sk => [Joined sk] | _ => [] end.
+Lemma emit_nil : forall s, emit s [] = s.
+Proof. destruct s; unfold emit; cbn. rewrite app_nil_r; reflexivity. Qed.
+Theorem panic_preserves : forall s o, (snd (step s o) = RPanic \/ exists e, snd (step s o) = RErr e) ->
+  fst (step s o) = emit s (rejected o).
 Proof.
   intros s o H.
-  assert (forall r, r = RPanic \/ (exists e, r = RErr e) -> forall v, r <> ROk v) as NOk
-    by (intros r [->|[e ->]] v; discriminate).
-  destruct o; cbn [step] in *; unfold set_rt in *;
+  destruct o; cbn [step rejected] in *; unfold set_rt in *; rewrite ?emit_nil;
     repeat match goal with
     | |- context [match ?x with _ => _ end] => destruct x eqn:?; cbn [fst snd] in *
     | H : context [match ?x with _ => _ end] |- _ => destruct x eqn:?; cbn [fst snd] in *
@@ -395,13 +398,44 @@ Proof.
     try (exfalso; destruct H as [H|[e' H]]; cbn in H; discriminate).
 Qed.
 
+(* the log is write-only: no operation's result or effect on slots and guards depends on it *)
+Definition set_log (s : st) (l : list ev) : st := mk_st (gs s) (handles s) (tlg s) (rtg s) (held s) l.
+Definition routing (s : st) := (gs s, handles s, tlg s, rtg s, held s).
+Lemma skipn_app_exact : forall {T} (a b : list T), skipn (length a) (a ++ b) = b.
+Proof. induction a; cbn; auto. Qed.
+Lemma skipn_all_exact : forall {T} (a : list T), skipn (length a) a = [].
+Proof. induction a; cbn; auto. Qed.
+Lemma step_set_log : forall s l o,
+  step (set_log s l) o =
+  (set_log (fst (step s o)) (l ++ skipn (length (log s)) (log (fst (step s o)))), snd (step s o)).
+Proof.
+  intros s l o. destruct o; cbn [step]; unfold set_rt, getg, set_log; cbn [gs handles tlg rtg held log];
+    repeat match goal with
+    | |- context [match ?x with _ => _ end] => destruct x eqn:?; cbn [fst snd]
+    end; norm; cbn [fst snd gs handles tlg rtg held log];
+    rewrite ?skipn_app_exact, ?skipn_all_exact, ?app_nil_r; reflexivity.
+Qed.
+Lemma run_set_log : forall ops s l,
+  snd (run (set_log s l) ops) = snd (run s ops) /\ routing (fst (run (set_log s l) ops)) = routing (fst (run s ops)).
+Proof.
+  induction ops as [|o r IH]; intros s l; cbn [run]; [split; reflexivity|].
+  rewrite step_set_log. destruct (step s o) as [s1 x]; cbn [fst snd].
+  destruct (IH s1 (l ++ skipn (length (log s)) (log s1))) as [E1 E2].
+  destruct (run (set_log s1 _) r) as [s2 xs]; destruct (run s1 r) as [s3 ys]; cbn [fst snd] in *.
+  split; congruence.
+Qed.
+
 (* so the rest of a history runs as if the panicking operation had never been issued *)
 Corollary panic_is_skipped : forall s o ops,
   (snd (step s o) = RPanic \/ exists e, snd (step s o) = RErr e) ->
-  run s (o :: ops) = (fst (run s ops), snd (step s o) :: snd (run s ops)).
+  snd (run s (o :: ops)) = snd (step s o) :: snd (run s ops) /\
+  routing (fst (run s (o :: ops))) = routing (fst (run s ops)).
 Proof.
   intros s o ops H. cbn [run]. pose proof (panic_preserves s o H) as E.
-  destruct (step s o) as [s1 x]; cbn [fst snd] in *; subst s1. destruct (run s ops); reflexivity.
+  destruct (step s o) as [s1 x]; cbn [fst snd] in *; subst s1.
+  change (emit s (rejected o)) with (set_log s (log s ++ rejected o)).
+  destruct (run_set_log ops s (log s ++ rejected o)) as [E1 E2].
+  destruct (run (set_log s _) ops) as [s2 xs]; cbn [fst snd] in *. split; congruence.
 Qed.
 
 (* precedence, on every reachable state: thread-local test sink, else the current runtime's, else the attached
@@ -433,7 +467,7 @@ Definition log_effect (o : op) (r : res) : list ev :=
   end.
 Theorem exactly_one : forall s o,
   match o with
-  | DropHandle _ _ => exists j, log (fst (step s o)) = log s ++ j /\ (j = [] \/ exists sk, j = [Joined sk])
+  | DropHandle _ _ | Attach _ _ _ => exists j, log (fst (step s o)) = log s ++ j /\ (j = [] \/ exists sk, j = [Joined sk])
   | _ => log (fst (step s o)) = log s ++ log_effect o (snd (step s o))
   end.
 Proof.
@@ -441,6 +475,8 @@ Proof.
     repeat match goal with
     | |- context [match ?x with _ => _ end] => destruct x eqn:?; cbn [fst snd log_effect]
     end; norm; rewrite ?app_nil_r; try reflexivity.
+  - eexists; split; [reflexivity | right; eauto].
+  - exists []; rewrite app_nil_r; auto.
   - eexists; split; [reflexivity | right; eauto].
   - exists []; rewrite app_nil_r; auto.
   - exists []; rewrite app_nil_r; auto.
